@@ -1,12 +1,12 @@
 SPECIFICATION Spec
 CONSTANTS
   Blocking = FALSE
-  Persistent = FALSE
-  Buf = 1
+  Persistent = TRUE
+  Buf = 0
   Pubs = {"p1","p2"}
-  PubMsg <- PubMsg2
-  Msgs = {"m1","m2"}
-  MsgTopic <- Topic1
+  PubMsg <- PubMsgB
+  Msgs = {"m1","m2","m3"}
+  MsgTopic <- Topic3
   Subs = {"s1","s2"}
   SubTopic <- SubT1
   PreSubs = {"s1"}
@@ -16,10 +16,10 @@ CONSTANTS
   Cancels = {}
   LegacyHoldLocks = FALSE
   LegacyNilLog = FALSE
-  PubRest <- NoRest
-  MutBatchPersistFirst = FALSE
+  PubRest <- RestB
+  MutBatchPersistFirst = TRUE
   MutBatchNoWait = FALSE
   MutPersistOutsideLock = FALSE
-INVARIANTS NoPanic OneUnsettled OneSenderPerPair NoSpuriousRedelivery OnlyOwnTopic BlockingReturn AfterClose NoStuckCall Complete
+INVARIANTS NoPanic OneUnsettled OneSenderPerPair NoSpuriousRedelivery OnlyOwnTopic BlockingReturn BatchOrder AfterClose NoStuckCall Complete
 
 CHECK_DEADLOCK FALSE
